@@ -442,8 +442,8 @@ func ruleKEY5(c *Ctx) []Ob {
 // kpos is a position inside a scanned key, evaluated against one key layout.
 type kpos func(L Tmpl) (off int, fromEnd bool, why string)
 
-func absPos(n int) kpos     { return func(Tmpl) (int, bool, string) { return n, false, "" } }
-func endPos(n int) kpos     { return func(Tmpl) (int, bool, string) { return n, true, "" } }
+func absPos(n int) kpos      { return func(Tmpl) (int, bool, string) { return n, false, "" } }
+func endPos(n int) kpos      { return func(Tmpl) (int, bool, string) { return n, true, "" } }
 func badPos(why string) kpos { return func(Tmpl) (int, bool, string) { return 0, false, why } }
 
 func shiftPos(p kpos, d int) kpos {
@@ -1389,25 +1389,44 @@ func ruleKEY12(c *Ctx) []Ob {
 		}
 		n++
 		key := c.fname(fn) + "/NaN has one key"
-		nanEdges := guardEdges(fn, func(cond ssa.Value, branch bool) bool {
-			call, ok := cond.(*ssa.Call)
-			return ok && calleeFullName(call) == "math.IsNaN" && branch
-		})
-		okCanon := false
-		for _, ret := range returnsOf(fn) {
-			if !guardedBy(fn, ret.Block(), nanEdges) {
-				continue
-			}
-			if rv, ok := returnedValue(ret, 0); ok {
-				for _, og := range origins(rv) {
-					if mi, ok := og.(*ssa.MakeInterface); ok {
-						og = mi.X
-					}
-					if call, ok := og.(*ssa.Call); ok && calleeFullName(call) == "math.NaN" {
-						okCanon = true
+		canonicalises := func(f *ssa.Function) bool {
+			nanEdges := guardEdges(f, func(cond ssa.Value, branch bool) bool {
+				call, ok := cond.(*ssa.Call)
+				return ok && calleeFullName(call) == "math.IsNaN" && branch
+			})
+			for _, ret := range returnsOf(f) {
+				if !guardedBy(f, ret.Block(), nanEdges) {
+					continue
+				}
+				if rv, ok := returnedValue(ret, 0); ok {
+					for _, og := range origins(rv) {
+						if mi, ok := og.(*ssa.MakeInterface); ok {
+							og = mi.X
+						}
+						if call, ok := og.(*ssa.Call); ok && calleeFullName(call) == "math.NaN" {
+							return true
+						}
 					}
 				}
 			}
+			return false
+		}
+		okCanon := canonicalises(fn)
+		if !okCanon {
+			// or the converted number is handed to a helper that does it
+			allCalls(fn, func(ci ssa.CallInstruction) {
+				g := staticCallee(ci)
+				if g == nil || !c.IsLib(c.declared(g)) || c.declared(g) == c.lookupFunc("util", "ToFloat64") {
+					return
+				}
+				for _, a := range ci.Common().Args {
+					for _, og := range origins(a) {
+						if cl, ok := og.(*ssa.Call); ok && staticCallee(cl) != nil && c.declared(staticCallee(cl)) == c.lookupFunc("util", "ToFloat64") && canonicalises(c.declared(g)) {
+							okCanon = true
+						}
+					}
+				}
+			})
 		}
 		if okCanon {
 			o.add(OK, key, relPath(c, fn.Pos()), "a number found to be NaN is keyed as math.NaN()")
